@@ -70,15 +70,18 @@ def handle : Handler := fun op args =>
       let r := findIndices l x
       "ok " ++ toString r.length ++ " " ++ showNats r
   | "c19.mean" => withArgs pRats args fun l =>
-      match mean l with | some v => "ok " ++ showRat v | none => "undef"
+      match meanE l with | .ok v => "ok " ++ showRat v | .error _ => "err"
   | "c19.variance" => withArgs pRats args fun l =>
-      match variance l with | some v => "ok " ++ showRat v | none => "undef"
+      match varianceE l with | .ok v => "ok " ++ showRat v | .error _ => "err"
+  | "c19.stddev" => withArgs pRats args fun l =>     -- the square root is outside the model: only the guard is answered
+      match stdDevSqE l with | .ok _ => "undef" | .error _ => "err"
   | "c19.median" => withArgs pRats args fun l =>
-      match median l with | some v => "ok " ++ showRat v | none => "undef"
+      match medianE l with | .ok v => "ok " ++ showRat v | .error _ => "err"
   | "c19.wavg" => withArgs (pList (do let v ← pRat; let w ← pRat; pure (v, w))) args fun d =>
-      match weightedAverage d with
-      | some (a, se) => "ok " ++ showRat a ++ " " ++ showRat se
-      | none => "undef"
+      match weightedAverageE d with
+      | .ok (some (a, se)) => "ok " ++ showRat a ++ " " ++ showRat se
+      | .ok none => "undef"
+      | .error _ => "err"
   | "c19.dpcmp" => withArgs (do let a ← pRat; let b ← pRat; let c ← pRat; let d ← pRat; pure (a, b, c, d)) args fun (a, b, c, d) =>
       let x : DP := ⟨a, b⟩
       let y : DP := ⟨c, d⟩
